@@ -1452,6 +1452,23 @@ pub fn world(g: &Generated, ti: usize, rng: &mut Rng, cfg: &Cfg) -> World {
                     assets.insert(Some((a.policy.clone(), a.asset_name.clone())), BigInt::from(rng.range(1, 5_000_000)));
                 }
             }
+            // tokens the template never mentions (what a wallet UTxO really looks like): whatever reads the
+            // input as a value must carry them along; also another name under a declared policy and the
+            // empty asset name
+            if rng.chance(1, 4) {
+                for _ in 0..1 + rng.usize(2) {
+                    let policy = if !g.prog.assets.is_empty() && rng.chance(1, 3) { g.prog.assets[0].policy.clone() } else { rng.bytes(28) };
+                    let name = match rng.below(3) {
+                        0 => vec![],
+                        1 => rng.bytes(32),
+                        _ => {
+                            let n = 1 + rng.usize(6);
+                            rng.bytes(n)
+                        }
+                    };
+                    assets.insert(Some((policy, name)), BigInt::from(rng.range(1, 1_000_000_000)));
+                }
+            }
             // the referenced UTxO when the block names one by literal / param
             // (two blocks naming the same reference must not be given the same UTxO: one UTxO is
             // never spent through two blocks)
